@@ -62,6 +62,13 @@ class PyFunction(pyobjects.PyFunction):
             for index, name in enumerate(self.get_param_names()):
                 # TODO: handle tuple parameters
                 result[name] = pynamesdef.ParameterName(self, index)
+            # Positional-only and keyword-only parameters are names of the
+            # function's scope, too; nothing is inferred for their objects.
+            others = list(getattr(self.arguments, "posonlyargs", []))
+            others.extend(self.arguments.kwonlyargs)
+            for node in others:
+                if node.arg not in result:
+                    result[node.arg] = pynamesdef.ParameterName(self, len(result))
             self.parameter_pynames = result
         return self.parameter_pynames
 
